@@ -553,6 +553,13 @@ impl BindingEscapeAnalyzer<'_> {
         if self.direct_eval {
             scopes.escape_all_bindings();
         }
+        if contains_direct_eval {
+            // The code of a direct eval can refer to the `arguments` object of the function (of
+            // the closest non-arrow function, for an arrow function).
+            scopes
+                .parameter_scope()
+                .access_binding(&boa_string::JsString::from("arguments"), true);
+        }
         let mut scope = scopes.parameter_scope();
         std::mem::swap(&mut self.scope, &mut scope);
         self.visit_formal_parameter_list_mut(parameters)?;
